@@ -378,7 +378,14 @@ def run_gif(case):
         for j, p, m in case["history"]:
             d.dispatch(inst.jobs[j][p], m)
         n = len(creator.history_observer.history)
-        creator.create_gif()
+        try:
+            creator.create_gif()
+        except ValueError as e:
+            if "same shape" in str(e):
+                # the frames written by the library do not all have the same pixel size, so imageio refuses to
+                # stack them: no GIF at all
+                return {"n": n, "decoded": -1, "best": [], "error": "frames-of-different-size"}
+            raise
         decoded = imageio.mimread(gif, memtest=False)
         # reference pictures: rendered independently, one per history prefix
         refs = []
@@ -697,6 +704,11 @@ class C20(Check):
                                      "the returned Axes is not the figure's first Axes"))
             return fails
         if case["kind"] == "gif":
+            if obs.get("error") == "frames-of-different-size":
+                fails.append(Failure("oracle", "gif:frames-of-different-size",
+                                     f"create_gif() raised (imageio: all input arrays must have the same shape) for a "
+                                     f"history of {obs['n']} operations: the frames it wrote differ in pixel size"))
+                return fails
             if obs["decoded"] != obs["n"]:
                 fails.append(Failure("oracle", "gif:frame-count",
                                      f"the GIF has {obs['decoded']} frames for a history of {obs['n']}"))
